@@ -85,9 +85,10 @@ func sequentialRef(in []byte, start time.Time) []string {
 }
 
 type chunkReader struct {
-	data []byte
-	rng  *rand.Rand
-	max  int
+	data    []byte
+	rng     *rand.Rand
+	max     int
+	eofWith bool // the last chunk is returned together with io.EOF (as io.Reader allows)
 }
 
 func (c *chunkReader) Read(p []byte) (int, error) {
@@ -105,6 +106,9 @@ func (c *chunkReader) Read(p []byte) (int, error) {
 	c.data = c.data[n:]
 	if c.rng.Intn(8) == 0 {
 		runtime.Gosched()
+	}
+	if c.eofWith && len(c.data) == 0 {
+		return n, io.EOF
 	}
 	return n, nil
 }
@@ -225,7 +229,10 @@ func runPipeline(w *tr.Writer, in []byte, caps []int, mode string, hist [][]inte
 	ret := make(chan string, 1)
 	var reader io.Reader = bytes.NewReader(in)
 	if mode == "free" || mode == "lag" {
-		reader = &chunkReader{append([]byte{}, in...), rand.New(rand.NewSource(rng.Int63())), 1 + rng.Intn(64)}
+		// chunk sizes from one byte to more than any internal buffer; a third of the readers hand over their
+		// last chunk together with io.EOF
+		max := []int{1 + rng.Intn(64), 1 + rng.Intn(64), 4096, 1 << 16}[rng.Intn(4)]
+		reader = &chunkReader{append([]byte{}, in...), rand.New(rand.NewSource(rng.Int63())), max, rng.Intn(3) == 0}
 	}
 	go func() {
 		ret <- tr.Recover(func() {
